@@ -2,6 +2,7 @@
 of two or three requests on the real application (harness/sched.py), each compared with the Lean
 model's scheduled semantics (`Prog.runSched` through the driver command `sched`) and judged by
 monitors that evaluate the properties on the real outcomes (incl. the serial-permutation oracle)."""
+from harness import ppool
 import itertools
 import json
 import multiprocessing as mp
@@ -173,6 +174,11 @@ def run_with_chooser(reqs, chooser):
         i = chooser(k, alive, last)
         k += 1
         if i is None:
+            complete = False
+            break
+        if i not in alive:
+            # the schedule prefix being replayed names a request that has ended already: this run did not repeat the
+            # earlier one (a request abandoned by the deadline, or a service that is not deterministic)
             complete = False
             break
         g = gs[i]
@@ -355,7 +361,9 @@ def monitors(props, start_snap, start_dump, oplist, leaf, serial_cache):
                     if all(ok(x) for x in st2) and core(d2) == final:
                         match = True
                         break
-                if match:
+                # (a matter of C05 - C07 only: the no-op request was ACCEPTED, so for the properties about rejected writes,
+                # dangling records, the forest and the name tables the schedule is as good as a serial one)
+                if match and ser0 == 'c07:':
                     out.append(('c07:noop-traits-put-accepted-with-stale-generation' if noop_t else
                                 'c07:noop-empty-write-accepted-with-stale-generation',
                                 'statuses %s: serializable only without the no-op request(s) %s' % (sts, noop)))
@@ -729,7 +737,7 @@ def run_races(chk, props, n_cases, max_leaves, profile, procs=None):
     ctx = mp.get_context('fork')
     seeds = [chk.seed * 7919 + i for i in range(n_cases)]
     errors = []
-    with ctx.Pool(procs, initializer=_init) as pool:
+    with ppool.Pool(ctx, procs, initializer=_init) as pool:
         for res in pool.imap_unordered(race_case, [(s, tuple(props), max_leaves, profile) for s in seeds]):
             if 'error' in res:
                 errors.append(res['error'])
